@@ -119,6 +119,14 @@ Definition g_add_out (g : graph) (n to : nat) : graph * (bool * bool * bool) :=
   let g2 := if linked then setn g1 to (add_in (getn g1 to) n) else g1 in
   (g2, (linked, n_inv nn && negb (n_inv tn), is_nil o)).
 
+(** addOut n to where [to] is a node that is released already and known to nobody else: the placeholder
+    [&node{released: true}] of AddDependency outside a rerunner (rerunner.go:201-204).  Nothing is linked;
+    returns the graph and (shouldInvalidate, shouldRelease).  The placeholder is valid, so it is "invalidated"
+    when n is invalid. *)
+Definition g_add_out_released (g : graph) (n : nat) : graph * (bool * bool) :=
+  let nn := getn g n in
+  (setn g n (set_out_had nn (n_out nn)), (n_inv nn, is_nil (n_out nn))).
+
 (** graph.go:177-186 *)
 Definition g_handle_inv (g : graph) (n r : nat) : graph * bool :=
   if n_inv (getn g n) then (g, true) else (setn g n (set_hinv (getn g n) r), false).
